@@ -226,6 +226,11 @@ func (x *Exec) Discharge(cfg *SolverCfg) []*Result {
 				relB = append(append([]*T(nil), base...), instances(base, sks, true)...)
 				relB = append(relB, matchInstances(relB, goal)...)
 			}
+			if x.Mode == ModeProof {
+				// bit-operator axioms at the ground applications (for the quantifier-free variants)
+				relA = append(relA, x.P.axiomInstances(x, append(append([]*T(nil), relA...), goal))...)
+				relB = append(relB, x.P.axiomInstances(x, append(append([]*T(nil), relB...), goal))...)
+			}
 			if len(x.P.SpecDefs) > 0 {
 				d := x.P.defInstances(x, []*T{o.PC, goal})
 				relA = append(relA, d...)
